@@ -15,9 +15,13 @@ def run(tier):
                    bounds='n=4, all 2^12 edge relations, 16 partitions on the first 4 edge bits', functions=FUNCS_A),
     ]
     if tier == 'thorough':
-        obs.append(Obligation('order5', 'harness/c09.py', 'h_order5', timeout=1200,
-                              partitions=[list(p) for p in itertools.product([False, True], repeat=8)],
-                              what='all 2^20 digraphs on 5 nodes', bounds='n=5, 256 partitions on the first 8 edge bits; partitions not exhausted within the budget are listed',
+        import os, random
+        rnd = random.Random(int(os.environ.get('VERIF_SEED', '0')))
+        allp = [list(p) for p in itertools.product([False, True], repeat=12)]
+        sample = rnd.sample(allp, 96)
+        obs.append(Obligation('order5', 'harness/c09.py', 'h_order5', timeout=600, partitions=sample,
+                              what='digraphs on 5 nodes: 96 of the 4096 classes given by the first 12 edge bits (sample seeded by VERIF_SEED), each class exhaustively over the remaining 8 bits',
+                              bounds='n=5; 96 x 256 = 24576 of the 2^20 edge relations; the other classes are outside this run',
                               functions=FUNCS_A))
     gparts = [[0, 0, 0]] + [[k, l, f] for k in range(1, 5) for l in range(2)
                             for f in (range(3) if tier == 'thorough' else range(1))]
